@@ -17,6 +17,8 @@ func init() {
 }
 
 func runC17(r *engine.Run) {
+	r.Rule("LOCK-mpt", "see C16: the list of missing node keys is appended to and read only under its own mutex (lookups record absent nodes while holding just the read lock of the trie, so several record at once): an unguarded append loses entries, and the report is no longer exactly the absent nodes")
+	r.Rule("DOM-cancel", "see C05: AddChange removes the new node's hash from the delete set on every path, also where there is no old node - the path a repair (MergeDB) takes: a synced-back node that the same trie removed earlier would otherwise be written and then deleted again by the save of the repair")
 	r.Rule("DOM-takeover", "in MergeDB the iteration over the donor store (through which the donor's nodes enter this trie's pending changes) dominates every return: no shortcut - being at the donor's root already, say - skips the take-over, after which a save would write nothing and report success")
 	r.Rule("AGREE-unwrapped", "the error of a recursive iterate call is returned unchanged, never wrapped in a constructed error: the callers recognise absent nodes by comparing with the sentinel errors")
 	r.Rule("WHO-limit", "the value size limit MPTMaxAllowableNodeSize is used only in Insert (or in a guard helper all of whose callers are Insert): whole nodes - e.g. those the sync repair takes over - are never held to the limit of a value")
@@ -57,6 +59,8 @@ func runC17(r *engine.Run) {
 	domPrevLevel(r, "DOM-prevlevel")
 	domFullWalk(r, "DOM-fullwalk")
 	domTakeover(r, "DOM-takeover")
+	mptLockDiscipline(r)
+	domCancel(r)
 }
 
 // resultValue resolves the i-th result of ret through a named-result cell
